@@ -90,7 +90,7 @@ type Spec struct {
 var clauseKw = map[string]bool{
 	"pure": true, "func": true, "extern": true, "iface": true, "lockinv": true, "property": true,
 	"case": true, "requires": true, "ensures": true, "modifies": true, "loop": true, "cut": true,
-	"inline": true, "trusted": true, "field": true, "lemma": true, "guards": true, "invariant": true, "observe": true, "ghostset": true, "axiom": true, "ghostdef": true, "assumed": true, "atcall": true, "tokens": true, "consumes": true, "ghostat": true, "tokentable": true, "opaque": true,
+	"inline": true, "trusted": true, "field": true, "lemma": true, "guards": true, "invariant": true, "observe": true, "ghostset": true, "axiom": true, "ghostdef": true, "assumed": true, "atcall": true, "tokens": true, "consumes": true, "ghostat": true, "tokentable": true, "opaque": true, "nocall": true,
 	"stable": true, "assert": true, "params": true, "ghost": true,
 }
 
@@ -308,6 +308,10 @@ func ParseSpec(path string) (*Spec, error) {
 					sp.TokenSlots[fs[0]] = fs[2]
 				}
 			}
+		case "nocall":
+			// nocall f: the function under verification contains no call site of f (structural obligation)
+			props, body := splitProps(rest)
+			addClause(&Clause{Kind: "nocall", Text: strings.TrimSpace(body), Line: rc.line, Props: props})
 		case "opaque":
 			// opaque f, g: inside this function's verification the pure functions f and g are uninterpreted
 			addClause(&Clause{Kind: "opaque", Text: rest, Line: rc.line})
